@@ -217,6 +217,11 @@ func (p *Parser) resolveConverters(generatingMethods []*bmodel.MethodEntry, conv
 			err = logger.Errorf("%v: function %v cannot use as a converter", p.fset.Position(pos), name)
 			continue
 		}
+		if 0 < len(method.AdditionalArgVars()) {
+			// The call is emitted with the source as its only argument.
+			err = logger.Errorf("%v: function %v cannot use as a converter", p.fset.Position(pos), name)
+			continue
+		}
 		conv.Set(method.SrcVar().Type(), method.DstVar().Type(), method.RetError())
 		return nil
 	}
@@ -241,7 +246,8 @@ func (p *Parser) lookupConverterFunc(funcName string, pos token.Pos) (argType, r
 		err = logger.Errorf("%v: %v isn't a function", p.fset.Position(pos), funcName)
 		return
 	}
-	if sig.Params().Len() != 1 || sig.Results().Len() < 1 || 2 < sig.Results().Len() {
+	if sig.Params().Len() != 1 || sig.Variadic() || sig.Results().Len() < 1 || 2 < sig.Results().Len() {
+		// The call is emitted as f(x): a variadic parameter would need f(x...).
 		err = logger.Errorf("%v: function %v cannot use as a converter", p.fset.Position(pos), funcName)
 		return
 	}
